@@ -49,6 +49,9 @@ CASES = [
     ('sort strings ascending', 'a = ["b","a","c"]; a sort true; a', '[a,b,c]'),
     ('sort refuses sub-arrays of different structure', 'a = [[1,"a"],[2]]; { a sort true } except__ { }; count a', '2'),
     ('sort refuses mixed types', 'a = [1,"a"]; { a sort true } except__ { }; count a', '2'),
+    ('sort descending on 300 numbers with duplicates', 'a = []; for "_i" from 1 to 300 do { a pushBack (_i % 3) }; a sort false; [count a, a select 0, a select 150, a select 299]', '[300,2,1,0]'),
+    ('sort descending on 300 equal strings', 'a = []; for "_i" from 1 to 300 do { a pushBack "x" }; a sort false; count a', '300'),
+    ('sort ascending on 300 numbers with duplicates', 'a = []; for "_i" from 1 to 300 do { a pushBack (_i % 3) }; a sort true; [a select 0, a select 299]', '[0,2]'),
 ]
 def search(sqfvm):
     for (name, code, want) in CASES:
